@@ -15,6 +15,7 @@ struct FR : public FileReader {
     if (path == "inc.ninja" || path == "sub/sub.ninja") { *contents = g_inc; return Okay; }
     if (path == "a.ninja") { *contents = g_a; return Okay; }
     if (path == "b.ninja") { *contents = g_b; return Okay; }
+    if (path == "dd") { *contents = g_inc; return Okay; }
     if (path == "pre.ninja") { *contents = "x = px\nbuild po: r pi\n"; return Okay; }
     *err = "No such file or directory"; return NotFound;
   }
@@ -121,6 +122,53 @@ extern "C" int harness_main() {
   VERIF_ASSERT(b->EvaluateCommand() == std::string(b_uses) + " b.in", "C12: a rule name resolves in the scope of the file that uses it (a rule private to one subninja file is not visible in its sibling)");
   VERIF_ASSERT(t->EvaluateCommand() == "other t.in", "C12: the parent's own statements are unaffected by its children");
   verif_reach("siblings"); verif_obs((long)state.edges_.size());
+  return 0;
+}
+#elif defined(MODE_SPELLINGS)
+// C14 at the places where a path enters ninja: whichever spelling of dir/gen.h a manifest or dyndep file uses, in whichever position, it is
+// the same Node as the canonical spelling, and no Node exists under the other spelling
+#include "dyndep.h"
+extern "C" int harness_main() {
+  ir2c_global_ctors();
+  static const char* kSpell[] = { "dir/gen.h", "./dir/gen.h", "dir//gen.h", "dir/sub/../gen.h", "dir/./gen.h", "x/../dir/gen.h" };
+  int sp = verif_choice("spelling", 6); int kind = verif_choice("position", 9); bool crlf = verif_bool("crlf");
+  std::string P = kSpell[sp];
+  std::string m = "rule r\n  command = c $in $out\n";
+  m += kind == 7 ? "build " + P + ": r src.in\n" : kind == 8 ? "build other.h | " + P + ": r src.in\n" : "build dir/gen.h: r src.in\n";
+  m += "build out: r e.in " + (kind == 0 ? P : std::string("e2.in")) + " | i.in " + (kind == 1 ? P : std::string("i2.in")) + " dd || o.in " + (kind == 2 ? P : std::string("o2.in")) + " |@ v.in " + (kind == 3 ? P : std::string("v2.in")) + "\n  dyndep = dd\n";
+  if (kind == 4) m += "default " + P + "\n";
+  if (crlf) { std::string t; for (size_t i = 0; i < m.size(); i++) { if (m[i] == '\n') t += '\r'; t += m[i]; } m = t; }
+  g_main = m;
+  // the dyndep file of 'out' (kinds 5, 6: the spelling is used there)
+  g_inc = "ninja_dyndep_version = 1\nbuild out" + (kind == 6 ? " | x.imp " : std::string("")) + ": dyndep" + (kind == 5 ? " | " + P : std::string("")) + "\n";
+  State state; FR fr; std::string err; ManifestParser mp(&state, &fr);
+  bool ok = mp.Load("build.ninja", &err);
+  VERIF_ASSERT(ok, "C12: a manifest following the documented grammar is accepted");
+  if (!ok) return 0;
+  Node* canon = state.LookupNode("dir/gen.h"); Edge* out = edge_for(&state, "out");
+  VERIF_ASSERT(out != NULL, "C12: every build statement produced its edge");
+  if (kind == 5 || kind == 6) { struct DR : public DiskInterface { FR fr; TimeStamp Stat(const std::string&, std::string*) const override { return 1; } bool WriteFile(const std::string&, const std::string&, bool) override { return true; } bool MakeDir(const std::string&) override { return true; }
+      Status ReadFile(const std::string& p, std::string* c, std::string* e) override { return fr.ReadFile(p, c, e); } int RemoveFile(const std::string&) override { return 0; } } disk;
+    DyndepLoader loader(&state, &disk); Node* dd = state.LookupNode("dd"); VERIF_ASSERT(dd && loader.LoadDyndeps(dd, &err), "C11: a well-formed dyndep file is accepted"); canon = state.LookupNode("dir/gen.h"); }
+  VERIF_ASSERT(canon != NULL && canon->in_edge() != NULL, "C14: the file has one Node under its canonical name, produced by its statement");
+  if (sp != 0) VERIF_ASSERT(state.LookupNode(P) == NULL, "C14: no second Node exists under another spelling of the same path");
+  if (!canon || !out) return 0;
+  bool used = false; const char* what = "";
+  if (kind == 0) { used = out->inputs_.size() > 1 && out->inputs_[1] == canon && !out->is_implicit(1) && !out->is_order_only(1); }
+  else if (kind == 1) { used = false; for (size_t i = 0; i < out->inputs_.size(); i++) if (out->inputs_[i] == canon && out->is_implicit(i)) used = true; }
+  else if (kind == 2) { used = false; for (size_t i = 0; i < out->inputs_.size(); i++) if (out->inputs_[i] == canon && out->is_order_only(i)) used = true; }
+  else if (kind == 3) { used = false; for (size_t i = 0; i < out->validations_.size(); i++) if (out->validations_[i] == canon) used = true; }
+  else if (kind == 4) { used = state.defaults_.size() == 1 && state.defaults_[0] == canon; }
+  else if (kind == 5) { used = false; for (size_t i = 0; i < out->inputs_.size(); i++) if (out->inputs_[i] == canon && out->is_implicit(i)) used = true; }
+  else if (kind == 6) { used = true; }
+  else if (kind == 7) { used = canon->in_edge()->outputs_.size() == 1; }
+  else { used = canon->in_edge()->outputs_.size() == 2 && canon->in_edge()->implicit_outs_ == 1; }
+  (void)what;
+  VERIF_ASSERT(used, "C14: a path names the same file whatever its spelling and whatever position of a manifest or dyndep file it is written in");
+  bool consumer_ok = true; for (size_t i = 0; i < canon->out_edges().size(); i++) consumer_ok = consumer_ok && canon->out_edges()[i] == out;
+  VERIF_ASSERT(consumer_ok, "C14: the consumers of the file are attached to its one Node");
+  verif_reach(sp ? "other-spelling" : "canonical-spelling"); if (kind >= 5 && kind <= 6) verif_reach("dyndep-file");
+  verif_obs((long)state.paths_.size());
   return 0;
 }
 #elif defined(MODE_KINDS)
